@@ -7,6 +7,7 @@ import (
 	"strings"
 	"testing"
 	"time"
+	_ "unsafe" // go:linkname
 
 	"tunnox-core/internal/constants"
 	"tunnox-core/internal/security"
@@ -48,10 +49,17 @@ type c03nAddr struct {
 	ports     int
 }
 
+// the protector's own periodic pass over failure and ban records (run by its CleanupInterval
+// ticker, 1 minute by default); the harness invokes that same method so that a pass falls between
+// the histories and the final checks without waiting for the ticker.
+//
+//go:linkname c03hSweep tunnox-core/internal/security.(*BruteForceProtector).cleanup
+func c03hSweep(p *security.BruteForceProtector)
+
 func TestVerifC03BanHistories(t *testing.T) {
 	run := vk.Start(t, "C03", "ban-histories")
 	defer run.Finish()
-	run.Rule("rounds of 6 addresses, each with one history: T1 operator permanent ban then operator short ban; T2 failures up to the permanent threshold (with UnbanIP between the temporary bans they cause) then operator short ban; T3 two failures, a third failing message held after the ban gate, operator permanent ban, release (its temporary ban lands after the permanent one); T4 1-4 random operator actions {short, 1 h, permanent, unban} with checks in between; then all short durations elapse, then FC / P1+P2valid from every address; distinct = action history + final checks")
+	run.Rule("rounds of 6 addresses, each with one history: T1 operator permanent ban then operator short ban; T2 failures up to the permanent threshold (with UnbanIP between the temporary bans they cause) then operator short ban; T3 two failures, a third failing message held after the ban gate, operator permanent ban, release (its temporary ban lands after the permanent one); T4 1-4 random operator actions {short, 1 h, permanent, unban} with checks in between; then all short durations elapse and (two rounds in three) the protector's periodic clean-up pass runs, then FC / P1+P2valid from every address; distinct = action history + final checks")
 	r := run.Rand("banhist")
 	rounds := run.Pick(60, 1500)
 	perWorld := 30
@@ -239,6 +247,10 @@ func TestVerifC03BanHistories(t *testing.T) {
 		}
 		// ---- every short duration (<= 10 ms, applied or not) elapses ----
 		time.Sleep(12 * time.Millisecond)
+		if rd%3 != 2 { // the protector's periodic clean-up pass runs before the final checks
+			c03hSweep(w.n.BFP)
+			run.Count("cleanup_pass_before_final_checks", 1)
+		}
 		for _, a := range addrs {
 			check(a, "after-expiry")
 			if r.Intn(3) == 0 {
@@ -257,6 +269,7 @@ func TestVerifC03BanHistories(t *testing.T) {
 		}
 		w.opened = nil
 	}
+	run.Floor("cleanup_pass_before_final_checks", int64(rounds/2))
 	run.Floor("messages_from_certainly_banned_address", int64(rounds*3))
 	run.Floor("refused_from_certainly_banned_address", int64(rounds*2))
 	run.Floor("temporary_ban_applied_to_permanently_banned_address", int64(rounds*2))
